@@ -1,7 +1,7 @@
 // Driver for C16 (device grant: tokens only after user approval and only to
 // the initiating client).
 //
-// Two kinds of cases:
+// Three kinds of cases (the third, the relying party's poll loop in real time, is in loop.go):
 //   - histories of device_authorization / approve / deny / poll operations by
 //     2-3 clients (confidential, public) on both routers over one refstore
 //     (opfix); devices are created expired through a negative configured
@@ -224,6 +224,19 @@ type hist struct {
 	live     bool
 	honour   bool
 	t0       time.Time
+	// overlapping requests (overlap.go)
+	overlap bool     // this history contains polls held inside the storage lookup
+	gate    *devGate // holds GetDeviceAuthorizatonState calls when armed
+	polls   []string // the held polls (Gallina OpPoll terms), by index
+	evs     []string // the schedule: SArrive i / SServe i / SOp o
+}
+
+// addOp records an operation that ran from start to end.
+func (h *hist) addOp(op, obs, human string) {
+	h.ops = append(h.ops, op)
+	h.evs = append(h.evs, emit.Ctor("SOp", op))
+	h.obs = append(h.obs, obs)
+	h.human = append(h.human, human)
 }
 
 func (h *hist) fixture(life int) *opfix.Fixture {
@@ -250,7 +263,7 @@ func (h *hist) fixture(life int) *opfix.Fixture {
 	if h.insecure || strings.HasPrefix(h.origin, "http://") {
 		opts.ProviderOpts = []op.Option{op.WithAllowInsecure()}
 	}
-	f, err := opfix.NewWithIssuer(h.st, opts, issuer)
+	f, err := opfix.NewWithIssuerStorage(h.st, opts, issuer, h.gatedStorage)
 	if err != nil {
 		panic(err)
 	}
@@ -333,8 +346,8 @@ func (h *hist) authz(router opfix.Router, cr creds, owner int, scopes []string, 
 	var resp *opfix.Resp
 	m := h.meta()
 	pinned(rnd, func() { resp = post(f, router, m, "/device_authorization", form, cr.basic) })
-	h.ops = append(h.ops, emit.Ctor("OpAuthz", routerCoq(router), cr.coq(), emit.StrList(scopes), emit.Z(now), emit.Z(int64(life)), emit.Bytes(rnd),
-		emit.Str(m.host), emit.OptStr(m.fwd)))
+	opTerm := emit.Ctor("OpAuthz", routerCoq(router), cr.coq(), emit.StrList(scopes), emit.Z(now), emit.Z(int64(life)), emit.Bytes(rnd),
+		emit.Str(m.host), emit.OptStr(m.fwd))
 	obs := errResp(resp)
 	if resp.Panic == "" && resp.Status == 200 && resp.Str("device_code") != "" {
 		e, ok1 := jnum(resp.JSON, "expires_in")
@@ -347,8 +360,7 @@ func (h *hist) authz(router opfix.Router, cr creds, owner int, scopes []string, 
 			obs = "ROther"
 		}
 	}
-	h.obs = append(h.obs, obs)
-	h.human = append(h.human, fmt.Sprintf("authz %s host=%s forwarded=%q %+v scopes=%v life=%d -> %d %s", router, m.host, m.header, cr, scopes, life, resp.Status, clip(resp.Body)))
+	h.addOp(opTerm, obs, fmt.Sprintf("authz %s host=%s forwarded=%q %+v scopes=%v life=%d -> %d %s", router, m.host, m.header, cr, scopes, life, resp.Status, clip(resp.Body)))
 }
 
 func clip(s string) string {
@@ -359,32 +371,21 @@ func clip(s string) string {
 }
 
 func (h *hist) poll(router opfix.Router, cr creds, dc string, fault string) {
-	f := h.fixture(h.life)
-	form := url.Values{"grant_type": {deviceGrant}}
-	if dc != "" {
-		form.Set("device_code", dc)
+	if fault == "" {
+		p := h.send(router, cr, dc)
+		p.wait(hangLimit)
+		h.addOp(p.op, h.answer(p), p.text(""))
+		return
 	}
-	cr.form(form)
-	fc := "FNone"
-	if fault != "" {
-		goErr, coqErr, shape := h.faultValue(fault == "deadline")
-		h.mut(fault + ":" + shape)
-		h.st.FaultMethod, h.st.FaultKind = "GetDeviceAuthorizatonState", "error"
-		h.st.SetFaultErr(goErr)
-		defer h.st.SetFaultErr(nil)
-		fc = emit.Ctor("FFail", coqErr)
-	}
-	now := time.Now().UnixNano()
-	m := h.meta()
-	resp := post(f, router, m, "/oauth/token", form, cr.basic)
+	goErr, coqErr, shape := h.faultValue(fault == "deadline")
+	h.mut(fault + ":" + shape)
+	h.st.FaultMethod, h.st.FaultKind = "GetDeviceAuthorizatonState", "error"
+	h.st.SetFaultErr(goErr)
+	p := h.sendWith(router, cr, dc, emit.Ctor("FFail", coqErr))
+	p.wait(hangLimit)
 	h.st.FaultMethod, h.st.FaultKind = "", ""
-	h.ops = append(h.ops, emit.Ctor("OpPoll", routerCoq(router), cr.coq(), emit.Str(dc), emit.Z(now), fc, emit.Str(m.host), emit.OptStr(m.fwd)))
-	obs := errResp(resp)
-	if resp.Panic == "" && resp.Status == 200 && resp.Str("access_token") != "" {
-		obs = h.tokens(f, resp)
-	}
-	h.obs = append(h.obs, obs)
-	h.human = append(h.human, fmt.Sprintf("poll %s host=%s forwarded=%q %+v dc=%q fault=%q -> %d %s", router, m.host, m.header, cr, dc, fault, resp.Status, clip(resp.Body)))
+	h.st.SetFaultErr(nil)
+	h.addOp(p.op, h.answer(p), p.text(fault))
 }
 
 // faultValue draws the error VALUE a failing GetDeviceAuthorizatonState returns and
@@ -436,7 +437,20 @@ func splitScope(v string) []string {
 // storage record of that token id, scope of the answer, (sub, iss) of the ID
 // token, refresh token present.
 func (h *hist) tokens(f *opfix.Fixture, resp *opfix.Resp) string {
-	at := resp.Str("access_token")
+	scope, isStr := resp.JSON["scope"].(string)
+	if _, present := resp.JSON["scope"]; present && !isStr {
+		return "ROther"
+	}
+	t := h.tokenRecord(f, resp.Str("access_token"), resp.Str("id_token"), splitScope(scope), resp.Str("refresh_token") != "")
+	if t == "" {
+		return "ROther"
+	}
+	return emit.Ctor("RTokens", t)
+}
+
+// tokenRecord renders the Gallina record [tokens] ("" when the access token cannot be
+// tied to a storage record).
+func (h *hist) tokenRecord(f *opfix.Fixture, at, idToken string, scope []string, refresh bool) string {
 	var id, sub string
 	atiss := emit.None
 	if pl := opfix.JWTPayload(at); pl != nil {
@@ -447,39 +461,31 @@ func (h *hist) tokens(f *opfix.Fixture, resp *opfix.Resp) string {
 	} else if s, ok := f.OpenBearer(at); ok {
 		id, sub, _ = strings.Cut(s, ":")
 	} else {
-		return "ROther"
+		return ""
 	}
 	tok, ok := h.st.Tokens[id]
 	if !ok || tok.Subject != sub {
-		return "ROther"
+		return ""
 	}
 	idtok := emit.None
-	if it := resp.Str("id_token"); it != "" {
-		pl := opfix.JWTPayload(it)
+	if idToken != "" {
+		pl := opfix.JWTPayload(idToken)
 		s, _ := pl["sub"].(string)
 		iss, _ := pl["iss"].(string)
 		idtok = emit.Some(emit.Pair(emit.Str(s), emit.Str(iss)))
 	}
-	scope, isStr := resp.JSON["scope"].(string)
-	if _, present := resp.JSON["scope"]; present && !isStr {
-		return "ROther"
-	}
-	return emit.Ctor("RTokens", emit.Ctor("mkTokens", emit.Str(sub), emit.Str(tok.ClientID), emit.StrList(splitScope(scope)),
-		emit.StrList(tok.Scopes), idtok, atiss, emit.Bool(resp.Str("refresh_token") != "")))
+	return emit.Ctor("mkTokens", emit.Str(sub), emit.Str(tok.ClientID), emit.StrList(scope),
+		emit.StrList(tok.Scopes), idtok, atiss, emit.Bool(refresh))
 }
 
 func (h *hist) approve(uc, sub string) {
 	ok := h.st.Approve(uc, sub)
-	h.ops = append(h.ops, emit.Ctor("OpApprove", emit.Str(uc), emit.Str(sub)))
-	h.obs = append(h.obs, emit.Ctor("RAck", emit.Bool(ok)))
-	h.human = append(h.human, fmt.Sprintf("approve %q as %s -> %v", uc, sub, ok))
+	h.addOp(emit.Ctor("OpApprove", emit.Str(uc), emit.Str(sub)), emit.Ctor("RAck", emit.Bool(ok)), fmt.Sprintf("approve %q as %s -> %v", uc, sub, ok))
 }
 
 func (h *hist) deny(uc string) {
 	ok := h.st.Deny(uc)
-	h.ops = append(h.ops, emit.Ctor("OpDeny", emit.Str(uc)))
-	h.obs = append(h.obs, emit.Ctor("RAck", emit.Bool(ok)))
-	h.human = append(h.human, fmt.Sprintf("deny %q -> %v", uc, ok))
+	h.addOp(emit.Ctor("OpDeny", emit.Str(uc)), emit.Ctor("RAck", emit.Bool(ok)), fmt.Sprintf("deny %q -> %v", uc, ok))
 }
 
 func (h *hist) router() opfix.Router {
@@ -496,7 +502,16 @@ var scopeVoc = []string{"openid", "profile", "email", "offline_access", "api:rea
 // form escaping
 var scopeOdd = []string{"phone", "address", "admin", "urn:example:scope:write", "https://api.example.com/read",
 	"OpenID", "OPENID", "openid.", "Offline_Access", "offline_acce\u017fs", "\u212aey", "null", "NULL", "nil", "undefined", "true", "false", "0", "[]", "{}",
-	"a+b", "a%20b", "a%2Bb", "a&b=c", "q?x=1#f", "caf\u00e9"}
+	"a+b", "a%20b", "a%2Bb", "a&b=c", "q?x=1#f", "caf\u00e9",
+	"custom_openid_scope", "offline_access2"}
+
+// scopes that CONTAIN a standard scope as a substring (prefix, suffix, infix,
+// inside a URN / URL) without being it
+var scopeSuper = map[string][]string{
+	"openid":         {"custom_openid_scope", "openidx", "xopenid", "openid2", "urn:x:openid:foo", "https://api.example.com/openid", "openid-connect", "my.openid", "openidopenid"},
+	"offline_access": {"offline_access2", "no_offline_access", "x:offline_access:y", "offline_access_lite", "https://api.example.com/offline_access"},
+	"profile":        {"profile2", "userprofile", "profile:read"},
+}
 
 func (h *hist) shuffled(in []string) []string {
 	out := append([]string(nil), in...)
@@ -530,8 +545,31 @@ func insertAt(l []string, pos int, s string) []string {
 // the middle, at the end, several of them, all elements equal), unregistered /
 // near-miss / keyword-like scopes, and long lists (> 1 KiB, > 4 KiB).
 func (h *hist) scopes() []string {
-	k := h.r.IntN(18)
+	k := h.r.IntN(21)
 	switch {
+	case k >= 18:
+		// a standard scope only as a SUBSTRING of other scopes (reject side: it was not
+		// requested), or next to such scopes (accept side), among a few ordinary ones
+		kw := drv.Pick(h.r, []string{"openid", "openid", "offline_access", "profile"})
+		out := h.subset([]string{"profile", "email", "api:read", "x", "openid", "offline_access"}, 1, 3)
+		var keep []string
+		exact := h.r.Chance(1, 3)
+		for _, s := range out {
+			if s != kw {
+				keep = append(keep, s)
+			}
+		}
+		out = keep
+		for n := 1 + h.r.IntN(2); n > 0; n-- {
+			out = insertAt(out, h.r.IntN(len(out)+1), drv.Pick(h.r, scopeSuper[kw]))
+		}
+		if exact {
+			h.mut("scopes:substr+exact")
+			out = insertAt(out, h.r.IntN(len(out)+1), kw)
+		} else {
+			h.mut("scopes:substr-only")
+		}
+		return out
 	case k < 2:
 		h.mut("scopes:none")
 		return nil
@@ -708,8 +746,9 @@ func (h *hist) pollMutated(d issued) {
 	}
 }
 
-func historyCase(r drv.Rand, w *emit.Writer, extra map[string]int) {
-	h := &hist{r: r, fix: map[int64]*opfix.Fixture{}, muts: map[string]bool{}}
+// newHist draws a provider configuration, 2-3 registered clients and a fresh storage.
+func newHist(r drv.Rand) *hist {
+	h := &hist{r: r, fix: map[int64]*opfix.Fixture{}, muts: map[string]bool{}, gate: &devGate{}}
 	// issuer: static (with or without a path component) or derived from each request
 	h.path = drv.Pick(r, []string{"/device", "/activate", "/ui/device/code"})
 	h.ipath = drv.Pick(r, []string{"", "", "/oidc", "/auth/realms/main"})
@@ -778,6 +817,57 @@ func historyCase(r drv.Rand, w *emit.Writer, extra map[string]int) {
 	h.st.Users["alice"] = &refstore.User{Subject: "alice", Name: "Alice A", Email: "alice@example.com"}
 	h.st.Users["bob"] = &refstore.User{Subject: "bob", Name: "Bob B", Email: "bob@example.com"}
 	h.t0 = time.Now()
+	return h
+}
+
+// render gives the Gallina configuration, the client list and the input-class tags.
+func (h *hist) render(kind string) (string, string, []string) {
+	cl := make([]string, len(h.clients))
+	for i, c := range h.clients {
+		cl[i] = c.coq()
+	}
+	var issuer string
+	switch h.mode {
+	case "host":
+		issuer = emit.Ctor("IHost", emit.Bool(h.insecure), emit.Str(h.ipath))
+	case "forwarded":
+		issuer = emit.Ctor("IForwarded", emit.Bool(h.insecure), emit.Str(h.ipath))
+	default:
+		issuer = emit.Ctor("IStatic", emit.Str(h.origin), emit.Str(h.ipath))
+	}
+	formC := emit.Ctor("FormPath", emit.Str(h.path))
+	formTag := "form=path"
+	if h.formURL != "" {
+		formC, formTag = emit.Ctor("FormURL", emit.Str(h.formURL)), "form=url"
+	}
+	ipTag := "issuerpath=0"
+	if h.ipath != "" {
+		ipTag = "issuerpath=1"
+	}
+	cfg := emit.Ctor("mkCfg", issuer, formC, runeList(h.uc.charset), emit.Nat(h.uc.n), emit.Nat(h.uc.dash), emit.Z(int64(h.interval)))
+	tags := []string{"kind=" + kind, "issuer=" + h.mode, formTag, ipTag, "uc=" + h.uc.class, fmt.Sprintf("clients=%d", len(h.clients)), fmt.Sprintf("alphabet=%d", min(len(h.uc.charset), 257))}
+	if h.uc.f17() {
+		tags = append(tags, "f17=1")
+	}
+	if h.f21 {
+		tags = append(tags, "f21=1")
+	}
+	if h.honour {
+		tags = append(tags, "ctx=honoured")
+	} else {
+		tags = append(tags, "ctx=ignored")
+	}
+	if h.live {
+		tags = append(tags, "devstate=live")
+	} else {
+		tags = append(tags, "devstate=copy")
+	}
+	return cfg, emit.List(cl), tags
+}
+
+func historyCase(r drv.Rand, w *emit.Writer, extra map[string]int) {
+	h := newHist(r)
+	h.overlap = r.Chance(1, 3) // some polls of this history are held inside the storage lookup while others run
 
 	// flow-first: start a flow, then mostly legitimate steps with mutations mixed in
 	steps := 6 + r.IntN(10)
@@ -801,6 +891,11 @@ func historyCase(r drv.Rand, w *emit.Writer, extra map[string]int) {
 		}
 		if mustPoll >= 0 && r.Chance(4, 5) {
 			h.pollGood(h.devs[mustPoll])
+			mustPoll = -1
+			continue
+		}
+		if h.overlap && r.Chance(1, 3) {
+			h.overlapGroup(d)
 			mustPoll = -1
 			continue
 		}
@@ -834,46 +929,12 @@ func historyCase(r drv.Rand, w *emit.Writer, extra map[string]int) {
 		extra["clock_ambiguous"]++
 		return
 	}
-	cl := make([]string, len(h.clients))
-	for i, c := range h.clients {
-		cl[i] = c.coq()
-	}
-	var issuer string
-	switch h.mode {
-	case "host":
-		issuer = emit.Ctor("IHost", emit.Bool(h.insecure), emit.Str(h.ipath))
-	case "forwarded":
-		issuer = emit.Ctor("IForwarded", emit.Bool(h.insecure), emit.Str(h.ipath))
-	default:
-		issuer = emit.Ctor("IStatic", emit.Str(h.origin), emit.Str(h.ipath))
-	}
-	formC := emit.Ctor("FormPath", emit.Str(h.path))
-	formTag := "form=path"
-	if h.formURL != "" {
-		formC, formTag = emit.Ctor("FormURL", emit.Str(h.formURL)), "form=url"
-	}
-	ipTag := "issuerpath=0"
-	if h.ipath != "" {
-		ipTag = "issuerpath=1"
-	}
-	cfg := emit.Ctor("mkCfg", issuer, formC, runeList(h.uc.charset), emit.Nat(h.uc.n), emit.Nat(h.uc.dash), emit.Z(int64(h.interval)))
-	in := emit.Ctor("IHist", cfg, emit.List(cl), emit.List(h.ops))
-	tags := []string{"kind=history", "issuer=" + h.mode, formTag, ipTag, "uc=" + h.uc.class, fmt.Sprintf("clients=%d", len(h.clients)), fmt.Sprintf("alphabet=%d", min(len(h.uc.charset), 257))}
-	if h.uc.f17() {
-		tags = append(tags, "f17=1")
-	}
-	if h.f21 {
-		tags = append(tags, "f21=1")
-	}
-	if h.honour {
-		tags = append(tags, "ctx=honoured")
-	} else {
-		tags = append(tags, "ctx=ignored")
-	}
-	if h.live {
-		tags = append(tags, "devstate=live")
-	} else {
-		tags = append(tags, "devstate=copy")
+	cfg, cl, tags := h.render("history")
+	in := emit.Ctor("IHist", cfg, cl, emit.List(h.ops))
+	if h.overlap {
+		tags[0] = "kind=overlap"
+		tags = append(tags, fmt.Sprintf("held=%d", min(len(h.polls), 4)))
+		in = emit.Ctor("IOverlap", cfg, cl, emit.List(h.polls), emit.List(h.evs))
 	}
 	for m := range h.muts {
 		w.Count("mut=" + m)
@@ -902,13 +963,18 @@ func main() {
 			historyCase(r, w, extra)
 		}
 	}
+	// the relying party's poll loops: real time, all loops of a batch concurrently
+	if !cfg.Quick {
+		lateTerminal, maxBudgetMs = 12600, 13500
+	}
+	loopCases(r, w, max(n/15, 1), extra)
 	if os.Getenv("C16_SELFTEST") != "" {
 		// harness self-test mutant: a deliberately wrong observation that the check must flag
 		w.Add(emit.Case{Input: emit.Ctor("IUserCode", runeList([]rune("AB")), "2", "0", emit.Bytes([]byte{0, 1})),
 			Observed: emit.Ctor("OUserCode", emit.Some(emit.Str("BA"))), Tags: []string{"kind=selftest"}})
 	}
 	err := w.Close(emit.Meta{Property: "C16", Tier: cfg.Tier, Seed: cfg.Seed,
-		Rule:  "2 of 3 cases: a history of 6-15 device_authorization/approve/deny/poll operations by 2-3 clients (confidential web, public native, optionally a post/JWT/spa/no-device-grant client) on both routers over one refstore; the provider's issuer is static (with or without a path component) or derived from every request (IssuerFromHost / IssuerFromForwardedOrHost) and every request - device authorization and token request alike - arrives under its own Host / Forwarded header, so one provider instance serves requests under different issuers (iss of the ID token / JWT access token is observed); the storage hands out copies of its device state or the live state (devstate=) and ignores the state of the context it is called with or fails with ctx.Err() on a done context in every method (ctx=); scope lists: none, single, subsets in usual / shuffled order, repetitions at the start / adjacent / middle / end / of the first element, all elements equal, 20-80 scopes beyond 1 and 4 KiB, unregistered / near-miss (case, U+017F, U+212A) / keyword-like scopes; UserFormPath or the deprecated absolute UserFormURL: flow-first (start a flow with canonical credentials, poll, approve, poll) with mutations (foreign client, wrong/missing/post/mixed credentials, client ids that differ by case / white space / trailing slash, a private_key_jwt client without assertion, unknown code incl. case / white-space / padding / keyword variants of an issued one, user code as device code, a failing GetDeviceAuthorizatonState whose error value is a leaf (context.DeadlineExceeded / context.Canceled / plain / deadline only in the text) under 0-3 wrappers (fmt.Errorf %w, *oidc.Error server_error or another type with the inner error as Parent), bogus user codes, expired devices via negative lifetime, exhausted random source); 1 of 3 cases: op.NewUserCode directly with crypto/rand.Reader pinned (alphabets incl. non-ASCII, 1, 256 and 300 runes, dash 0 / 1 / >= n, F17 classes). Non-trivial = a history in which a device code was issued, or a produced user code; distinct = distinct (input hash, set of answer kinds).",
+		Rule:  "n/15 extra cases at the end (kind=loop): after a short history that starts a flow (and sometimes already approves / denies / polls), a real relying party (rp.NewRelyingPartyOAuth + rp.DeviceAccessToken, i.e. client.PollDeviceAccessTokenEndpoint) configured with the owner's registered credentials (3 of 4) or a wrong / missing / surplus secret, another registered client's credentials or an unknown client polls the real provider (either router, in-process RoundTripper, its own Host / Forwarded header) in REAL TIME with interval 300-1500 ms under a caller deadline <= 8 s (thorough tier: 13.5 s), while a script of 1-5 rounds decides what happens before each poll: nothing (authorization_pending), a storage time-out of any error shape (slow_down: the loop must add 5 s to its interval), and finally approve / deny / approve+deny in either order / a non-deadline storage error / a bogus user code / nothing; the deadline lies >= 600 ms after the poll that gets the definite answer or inside a gap between two polls (deadline before the approval is seen, deadline inside the 5 s back-off), always >= 600 ms from every nominal poll time; observed: answers of the history, number of token requests the provider received, what the loop returned (tokens projected as below / OAuth error / caller deadline / other). A loop during which a 10 ms probe timer fired > 80 ms late, or whose provider call took > interval/3, is emitted as its history only (kind=loopprefix, counted as clock_ambiguous). Of the other cases, 2 of 3: a history of 6-15 device_authorization/approve/deny/poll operations by 2-3 clients (confidential web, public native, optionally a post/JWT/spa/no-device-grant client) on both routers over one refstore; the provider's issuer is static (with or without a path component) or derived from every request (IssuerFromHost / IssuerFromForwardedOrHost) and every request - device authorization and token request alike - arrives under its own Host / Forwarded header, so one provider instance serves requests under different issuers (iss of the ID token / JWT access token is observed); the storage hands out copies of its device state or the live state (devstate=) and ignores the state of the context it is called with or fails with ctx.Err() on a done context in every method (ctx=); scope lists: none, single, subsets in usual / shuffled order, repetitions at the start / adjacent / middle / end / of the first element, all elements equal, 20-80 scopes beyond 1 and 4 KiB, unregistered / near-miss (case, U+017F, U+212A) / keyword-like scopes, scopes that contain openid / offline_access / profile as a substring (prefix, suffix, infix, URN, URL) with and without the exact scope next to them; UserFormPath or the deprecated absolute UserFormURL: flow-first (start a flow with canonical credentials, poll, approve, poll) with mutations (foreign client, wrong/missing/post/mixed credentials, client ids that differ by case / white space / trailing slash, a private_key_jwt client without assertion, unknown code incl. case / white-space / padding / keyword variants of an issued one, user code as device code, a failing GetDeviceAuthorizatonState whose error value is a leaf (context.DeadlineExceeded / context.Canceled / plain / deadline only in the text) under 0-3 wrappers (fmt.Errorf %w, *oidc.Error server_error or another type with the inner error as Parent), bogus user codes, expired devices via negative lifetime, exhausted random source); 1 of 3 cases: op.NewUserCode directly with crypto/rand.Reader pinned (alphabets incl. non-ASCII, 1, 256 and 300 runes, dash 0 / 1 / >= n, F17 classes). Non-trivial = a history in which a device code was issued, or a produced user code; distinct = distinct (input hash, set of answer kinds).",
 		Extra: map[string]any{"clock_ambiguous": extra["clock_ambiguous"]},
 		Notes: []string{"f17=1: user-code configurations that made op.NewUserCode panic before fix F17; f21=1: a client without the device grant starts a flow on the Legacy router (former defect F21, fixed by C05)"},
 	})
